@@ -83,7 +83,7 @@ def check(ctx):
     ctx.require_min('C12.F5', 2)
     import os
     from .. import witness, extract
-    witness.check_static_unit(ctx, 'C12.F4', os.path.join(extract.VERIF, 'witness', 's_select.cpp'), 'canContinueInvoking / mixin policy selection')
+    witness.check_static_unit(ctx, 'C12.F4', os.path.join(extract.VERIF, 'witness', 's_select.cpp'), 'canContinueInvoking / mixin policy selection', tag='C12')
 
 
 def check_gate(ctx, tu, f):
